@@ -27,9 +27,9 @@ CORE = {
                 fam_q=[('merge', 200), ('memmerge', 64)], fam_t=[('merge', 4000), ('memmerge', 1000)]),
     # C11: '... removal never disturbs an open Reader'
     'C11': dict(prefixes=['C11_', 'C04_reader_changed', 'C04_NoUseAfterClose'], mc_q=[('MC_files_q', 300)], mc_t=[('MC_files_t', 1500)],
-                fam_q=[('files', 240), ('filefaults', 64)], fam_t=[('files', 4000), ('filefaults', 1000)]),
+                fam_q=[('files', 240), ('filefaults', 96)], fam_t=[('files', 4000), ('filefaults', 1000)]),
     'C14': dict(prefixes=['C14_', 'C02_', 'C03_', 'C01_RootIsAbstract', 'C04_'], mc_q=[('MC_faults_q', 300)], mc_t=[('MC_faults_t', 1500)],
-                fam_q=[('faults', 160), ('mergefaults', 48), ('persfaults', 32)], fam_t=[('faults', 3000), ('mergefaults', 800), ('persfaults', 600)]),
+                fam_q=[('faults', 160), ('mergefaults', 96), ('persfaults', 96)], fam_t=[('faults', 3000), ('mergefaults', 800), ('persfaults', 600)]),
     # C15 also counts handle clauses: reference counts corrupted by a race show as handles closed twice / leaked
     'C15': dict(prefixes=['C15_', 'C04_reader_changed', 'C11_handle_closed_twice', 'C11_HandlesClosedOnce', 'C11_handle_leaked', 'C11_lock_not_released'], mc_q=[('MC_close_q', 300)], mc_t=[('MC_close_t', 1500), ('MC_live', 1500)],
                 fam_q=[('close', 200), ('free', 96)], fam_t=[('close', 4000), ('free', 2000)]),
